@@ -2,7 +2,9 @@
    the real chopper_cascade module, compared INSIDE Coq.
 
    (a) binary64 instance: same frames, same vertices in the same order, bit for bit; same
-       is_regular / bounds / subbounds / __getitem__ outcomes, same exceptions;
+       is_regular / bounds / subbounds / __getitem__ outcomes, same exceptions; a frame propagated to
+       an ARRAY of distances in one call (Verif.C11.Multi) is, distance by distance, the frame propagated
+       to that single distance — vertices, bounds(), subbounds() — and keeps the distance dimension(s);
    (b) high-precision instance (200-bit dyadic arithmetic standing in for the exact rationals),
        one call at a time: applied to the implementation's own previous
        frame (taken exactly), its polygons and the implementation's next frame cover each other within
@@ -15,7 +17,7 @@
 From Coq Require Import ZArith String List Bool.
 From Coq Require Import PrimFloat Uint63.
 From Verif.C11 Require Import Report.
-From Verif.C11 Require Import Clip Inst.
+From Verif.C11 Require Import Clip Inst Multi.
 Import ListNotations.
 Open Scope string_scope.
 
@@ -31,6 +33,21 @@ Record obsframe := mkobs {
   o_subcls : nat;              (* 0 = subbounds returned, 1 = NotImplementedError, 2 = other exception *)
   o_sub : list f4 }.
 Record obsitem := mkitem { i_d : float; i_res : option (float * list (list fpt) * list bool) }.
+(* a frame propagated to several distances in one call: the base frame is frames[mu_idx] of the
+   sequence (Frame.propagate_to / FrameSequence.propagate_to) or sequence[mu_item]; everything is
+   listed per distance (row-major over the distance dims) *)
+Record obsmulti := mkmulti {
+  mu_idx : nat;
+  mu_item : option float;
+  mu_ds : list float;
+  mu_ok : bool;                              (* propagate_to returned *)
+  mu_polys : list (list (list fpt));         (* per distance, per subframe *)
+  mu_reg : list bool;                        (* Subframe.is_regular per subframe *)
+  mu_bshape : bool;                          (* bounds()['time'] has the distance dims *)
+  mu_bounds : option (list f4);              (* per distance; None = exception *)
+  mu_subcls : nat;                           (* as o_subcls *)
+  mu_sshape : bool;                          (* subbounds()['time'] has the distance dims *)
+  mu_sub : list (list f4) }.                 (* per distance, per subframe *)
 Inductive probe := PN (t0 l : float)     (* a neutron (emission time, wavelength) *)
                  | PP (t l : float).     (* a point (time, wavelength) in the frame's own coordinates *)
 Record ccase := mkcase {
@@ -39,6 +56,7 @@ Record ccase := mkcase {
   c_err : bool;                (* the program raised ValueError *)
   c_frames : list obsframe;
   c_items : list obsitem;
+  c_multi : list obsmulti;
   c_probes : list (nat * list probe) }.    (* frame index, probes *)
 
 Section Chk.
@@ -49,7 +67,7 @@ Definition DO : COps := DOps (DofF MN) (DofF H).     (* 200-bit dyadic stand-in 
 (* ------------------------------------------------------------------ (a) binary64, bit for bit *)
 Definition feq (a b : float) : bool := PrimFloat.eqb a b.
 Definition pt_eq (p q : fpt) : bool := feq (fst p) (fst q) && feq (snd p) (snd q).
-Fixpoint list_eq {A} (e : A -> A -> bool) (l m : list A) : bool :=
+Fixpoint list_eq {A B} (e : A -> B -> bool) (l : list A) (m : list B) : bool :=
   match l, m with
   | [], [] => true
   | x :: l', y :: m' => e x y && list_eq e l' m'
@@ -96,6 +114,36 @@ Definition item_cmp (s : list (frame FO)) (it : obsitem) : string :=
 Fixpoint first_msg (l : list string) : string :=
   match l with [] => "" | r :: l' => if String.eqb r "" then first_msg l' else r end.
 
+(* propagation to an array of distances *)
+Definition optf4_eq (a : option (Multi.f4 FO)) (b : f4) : bool :=
+  match a with Some x => f4_eq x b | None => false end.
+Definition multi_cmp (s : list (frame FO)) (m : obsmulti) : string :=
+  let base := match mu_item m with Some d => getitem FO d s | None => nth_error s (mu_idx m) end in
+  match base with
+  | None => if mu_ok m then "float-multi-outcome" else ""
+  | Some fr =>
+      if negb (mu_ok m) then "float-multi-outcome"
+      else if negb (list_eq (list_eq (list_eq pt_eq)) (map (@fpolys FO) (propagate_multi FO (mu_ds m) fr)) (mu_polys m))
+      then "float-multi-vertices"
+      else if negb (list_eq Bool.eqb (map (is_regular_multi FO) (multi_sub FO (mu_ds m) fr)) (mu_reg m))
+      then "float-multi-is_regular"
+      else
+        let rb := match bounds_multi FO (mu_ds m) fr, mu_bounds m with
+                  | None, None => ""
+                  | Some l, Some l' => if negb (mu_bshape m) then "float-multi-bounds-shape"
+                                       else if list_eq optf4_eq l l' then "" else "float-multi-bounds"
+                  | _, _ => "float-multi-bounds-outcome"
+                  end in
+        if negb (String.eqb rb "") then rb
+        else match subbounds_multi FO (mu_ds m) fr, mu_subcls m with
+             | inl l, O => if negb (mu_sshape m) then "float-multi-subbounds-shape"
+                           else if list_eq (list_eq f4_eq) l (mu_sub m) then "" else "float-multi-subbounds-values"
+             | inr true, S O => ""
+             | inr false, S (S O) => ""
+             | _, _ => "float-multi-subbounds-outcome"
+             end
+  end.
+
 Definition srcF (c : ccase) : list (frame FO) :=
   let '(t0, t1, w0, w1) := c_rect c in source FO t0 t1 w0 w1.
 Definition check_float_v (c : ccase) : string :=
@@ -105,7 +153,10 @@ Definition check_float_v (c : ccase) : string :=
   | Some _, true => "float-impl-raises"
   | Some s, false =>
       let r := frames_cmp s (c_frames c) in
-      if String.eqb r "" then first_msg (map (item_cmp s) (c_items c)) else r
+      if String.eqb r "" then
+        let r2 := first_msg (map (item_cmp s) (c_items c)) in
+        if String.eqb r2 "" then first_msg (map (multi_cmp s) (c_multi c)) else r2
+      else r
   end.
 End Variant.
 (* the model of the current text first; if it disagrees, the text before C11_regular.patch is tried so
